@@ -25,7 +25,10 @@ class Func:
             t = b['insts'][-1]
             if t['op'] == 'ret':
                 self.rets.append(b['id'])
-            for o in t['ops']:
+            tops = t['ops']
+            if t['op'] == 'br' and len(tops) == 3 and tops[0]['k'] == 'c':
+                tops = [tops[2] if tops[0]['v'] != 0 else tops[1]]      # LLVM operand order: cond, false, true
+            for o in tops:
                 if o['k'] == 'bb' and o['v'] not in self.succ[b['id']]:
                     self.succ[b['id']].append(o['v'])
         for a, ss in self.succ.items():
